@@ -134,6 +134,12 @@ pub fn check_stream(ls: &LangSet, code: &str, toks: &[IdTok], model: bool) -> St
     }
     for (t, ft) in &results {
         let t = *t;
+        // U0: "the set of numbers recognised" is the same through both search entry points
+        let lazy = api.find_iter_first(toks, t, usize::MAX);
+        if &lazy != ft {
+            v.failure = Some(format!("U0: at threshold {} find_numbers_iter yields {} but find_numbers reports {}", t, crate::api::show_occs(&lazy), crate::api::show_occs(ft)));
+            return v;
+        }
         // U1: F(t) is a subset of F(0), as exact tuples
         if let Some(o) = subset(ft, &f0) {
             v.failure = Some(format!("U1: occurrence {} reported at threshold {} is not among those at threshold 0 ({})", o.show(), t, crate::api::show_occs(&f0)));
@@ -313,7 +319,7 @@ pub fn run(ctx: &Ctx) -> Outcome {
     if !ctx.quick() {
         super::legs::fuzz_leg(ctx, &mut rep, 45);
     }
-    let rule = "table/lookup agreement: every word of each language's linking-word table (hook H2) is answered linking and does not break a sequence of two digits; cases = every stream of 1..4 (thorough 1..5) tokens over a 16-word alphabet per language (counter exhaustive_small_alphabet_streams) and grammar-noise token streams, each scanned at 9 base thresholds (0,1,3,5,10,25,inf,NaN,-1) plus value and value +/- 0.5 of its first numbers; universal laws on every stream: F(t) subset of F(0) as exact tuples, monotonicity over all ordered threshold pairs, t<=0 or NaN rewrites everything, every non-small number is reported; policy model (lower-case, hint-free streams): a small number is reported iff a neighbour of the same kind is linked through a soft gap; gaps are soft (whitespace, hyphen, letter-free tokens other than a lone period, linking words, the conjunction) / hard (a lone period, a word that is not linking) / ambiguous (the separator word, a conjunction flagged not-a-number that the language does not list as linking: not judged); non-trivial = stream with at least one recognised number";
+    let rule = "table/lookup agreement: every word of each language's linking-word table (hook H2) is answered linking and does not break a sequence of two digits; cases = every stream of 1..4 (thorough 1..5) tokens over a 16-word alphabet per language (counter exhaustive_small_alphabet_streams) and grammar-noise token streams, each scanned at 9 base thresholds (0,1,3,5,10,25,inf,NaN,-1) plus value and value +/- 0.5 of its first numbers; universal laws on every stream: lazy and batch search agree at every threshold, F(t) subset of F(0) as exact tuples, monotonicity over all ordered threshold pairs, t<=0 or NaN rewrites everything, every non-small number is reported; policy model (lower-case, hint-free streams): a small number is reported iff a neighbour of the same kind is linked through a soft gap; gaps are soft (whitespace, hyphen, letter-free tokens other than a lone period, linking words, the conjunction) / hard (a lone period, a word that is not linking) / ambiguous (the separator word, a conjunction flagged not-a-number that the language does not list as linking: not judged); non-trivial = stream with at least one recognised number";
     finish(ctx, rep, rule, &["'is this a linking word / a separator word' is asked of the running library through the public trait methods", "gaps that contain the decimal-separator word are not judged (DESIGN.md C09); letter-free tokens other than a lone period are transparent, as the property's anchor states"], vec![])
 }
 
